@@ -16,7 +16,7 @@ from ..report import AnalysisError, norm_src
 
 EVIDENCE_FIELDS = {"visited_times", "rewards", "mean_reward", "variance", "reward", "reward_tilde"}
 # zero-credit paths of receive_reward that are part of the algorithm's documented state machine
-FINISHED_GUARDS = {"StroquOOL": ("not self.end", False), "GPO": ("self.phase > self.N", True)}
+FINISHED_GUARDS = {"StroquOOL": ("self.end", True), "GPO": ("self.phase > self.N", True)}
 # frozen exceptions of R04-WRITE (one symbol each, with reason)
 WRITE_EXCEPTIONS = {
     ("StroquOOL", "receive_reward", "self.curr_node.visited_times"):
@@ -183,7 +183,7 @@ def pair_attr_receiver(ctx, cls, fc, recv_src, rets):
             want = g[0].replace("not ", "").strip() if g else None
             if want and want.startswith("self.") and want[5:].isidentifier():
                 ds_f, _entry = fc.reaching(want, at)
-                bad_f = [n for n, rr in ds_f if not (rr[0] == "assign" and isinstance(rr[1], ast.Constant) and rr[1].value is g[1])]
+                bad_f = [n for n, rr in ds_f if not (rr[0] == "assign" and isinstance(rr[1], ast.Constant) and rr[1].value is (not g[1]))]
                 ctx.ob("R04-PAIR", not bad_f, cls.file, fc.qual, "%s  [finished flag]" % norm_src(r),
                        "the finished flag is not set on the way to this hand-out" if not bad_f else
                        "%s is set (line %s) on a path that still hands out a cell: receive_reward will drop the reward of that evaluation" % (
@@ -195,8 +195,7 @@ def pair_attr_receiver(ctx, cls, fc, recv_src, rets):
                 # the finished flag must be set before this return so that the next receive_reward credits nothing
                 want = g[0].replace("not ", "").strip()
                 for n, rr in fc.defs_of(want):
-                    if rr[0] == "assign" and isinstance(rr[1], ast.Constant) and rr[1].value is (not g[1]) or \
-                            rr[0] == "assign" and isinstance(rr[1], ast.Constant) and rr[1].value is True:
+                    if rr[0] == "assign" and isinstance(rr[1], ast.Constant) and rr[1].value is g[1]:
                         if fc.cfg.dominates(n, at):
                             flag = n
             ctx.ob("R04-PAIR", flag is not None, cls.file, fc.qual, norm_src(r),
